@@ -926,13 +926,17 @@ type SeekOp struct {
 }
 
 type SeekCase struct {
+	Prof    fr.Profile // capability profile of the registry
+	Via     int        // 0 = Repository.Fetch, 1 = blob FetchReference
 	Content []byte
 	Modes   []fr.BodyMode // behaviour of the i-th blob body (cycled)
 	Ops     []SeekOp
 }
 
 func (s *SeekCase) Line() string {
-	w := []string{"S", common.Hex(string(s.Content)), strconv.Itoa(len(s.Modes))}
+	p := s.Prof
+	w := []string{"S", common.Hex(string(s.Content)), bit(p.DigHdr) + bit(p.Range) + bit(p.CLen) + bit(p.Mount) + bit(p.Referrers),
+		strconv.Itoa(s.Via), strconv.Itoa(len(s.Modes))}
 	for _, m := range s.Modes {
 		w = append(w, strconv.Itoa(m.Chunk), bit(m.EOFWithData))
 	}
@@ -952,12 +956,15 @@ func (s *SeekCase) Line() string {
 
 func ParseSeek(line string) (*SeekCase, error) {
 	t := strings.Fields(line)
-	if len(t) < 4 || t[0] != "S" {
+	if len(t) < 6 || t[0] != "S" || len(t[2]) != 5 {
 		return nil, errors.New("not a seek case")
 	}
-	s := &SeekCase{Content: []byte(common.UnHex(t[1]))}
-	nm, _ := strconv.Atoi(t[2])
-	i := 3
+	pb := t[2]
+	s := &SeekCase{Content: []byte(common.UnHex(t[1])),
+		Prof: fr.Profile{DigHdr: pb[0] == '1', Range: pb[1] == '1', CLen: pb[2] == '1', Mount: pb[3] == '1', Referrers: pb[4] == '1'}}
+	s.Via, _ = strconv.Atoi(t[3])
+	nm, _ := strconv.Atoi(t[4])
+	i := 5
 	for ; nm > 0; nm-- {
 		if i+1 >= len(t) {
 			return nil, errors.New("short")
@@ -1004,7 +1011,7 @@ func ParseSeek(line string) (*SeekCase, error) {
 // bodies chunk their bytes: it tracks the position an io.ReadSeeker over the content must have.
 func execSeek(id string, s *SeekCase) {
 	line := s.Line()
-	c := &Case{Main: "app/blobs", Other: "lib/src", Prof: fr.Profile{DigHdr: true, Range: true, CLen: true}}
+	c := &Case{Main: "app/blobs", Other: "lib/src", Prof: s.Prof}
 	g := newRegistry(c)
 	repo := newRepo(c, g)
 	ctx := context.Background()
@@ -1016,31 +1023,49 @@ func execSeek(id string, s *SeekCase) {
 	if len(g.BlobModes) == 0 {
 		g.BlobModes = []fr.BodyMode{{}}
 	}
-	// the reader comes from Fetch or (odd content length) from blob FetchReference: both wrap
-	// the body in the same readSeekCloser with the blob's size
+	// the reader comes from Repository.Fetch or from blob FetchReference (which derives the
+	// descriptor -- and the reader's size -- itself, by HEAD when the GET has no Content-Length)
 	var rc io.ReadCloser
 	var err error
-	if len(s.Content)%2 == 1 {
-		_, rc, err = repo.Blobs().(registry.ReferenceFetcher).FetchReference(ctx, d.DG)
-		run.Count("seek:via-fetchreference")
+	if s.Via == 1 {
+		var rd ocispec.Descriptor
+		rd, rc, err = repo.Blobs().(registry.ReferenceFetcher).FetchReference(ctx, d.DG)
+		if err == nil && (rd.Size != d.SZ || string(rd.Digest) != d.DG) {
+			run.OracleFail(id, "inconsistent-descriptor", fmt.Sprintf("blob FetchReference returned %v for a blob of %d bytes", rd, d.SZ), replayOf(line))
+		}
 	} else {
 		rc, err = repo.Fetch(ctx, od(d))
-		run.Count("seek:via-fetch")
 	}
 	if err != nil {
 		panic(err)
 	}
+	cell := fmt.Sprintf("seek:matrix:%s:via%d", strings.Fields(line)[2], s.Via)
+	run.Count(cell)
 	rs, ok := rc.(io.ReadSeeker)
+	ops := s.Ops
+	head := "seeker"
 	if !ok {
-		run.OracleFail(id, "seek", "Fetch from a range-capable registry is not an io.ReadSeeker", replayOf(line))
-		run.Case(id, line, "noseeker")
-		return
+		if s.Prof.Range {
+			run.OracleFail(id, "seek", "the reader from a range-capable registry is not an io.ReadSeeker", replayOf(line))
+		}
+		// plain body: only the reads of the script can run
+		head = "noseeker"
+		ops = nil
+		for _, o := range s.Ops {
+			if o.K == "r" {
+				ops = append(ops, o)
+			}
+		}
+		rs = struct {
+			io.Reader
+			io.Seeker
+		}{rc, nil}
 	}
 	size := int64(len(s.Content))
 	pos := int64(0) // where an io.ReadSeeker over the content is
-	var parts []string
+	parts := []string{head}
 	closed := false
-	for i, o := range s.Ops {
+	for i, o := range ops {
 		first := len(g.Log)
 		var out string
 		mayReconnect := false // only a Seek that moves the position inside the blob may
@@ -1842,6 +1867,14 @@ func genSeek(r *common.Rand) *SeekCase {
 		s.Content[i] = byte(r.Intn(256))
 	}
 	size := int64(len(s.Content))
+	// the full matrix {Fetch, blob FetchReference} x all 32 capability profiles; range-capable
+	// ones (where a seeker is returned) three times out of four
+	pi := r.Intn(32)
+	if r.Chance(3, 4) {
+		pi |= 2
+	}
+	s.Prof = allProfiles()[pi]
+	s.Via = r.Intn(2)
 	// body behaviours: separate EOF, data with EOF, short reads, both; one per body, cycled
 	for k := 1 + r.Intn(3); k > 0; k-- {
 		m := fr.BodyMode{EOFWithData: r.Bool()}
@@ -1983,6 +2016,14 @@ func main() {
 	for i := 0; i < ns; i++ {
 		execSeek(run.NewID(), genSeek(r.Fork()))
 	}
+	cells := 0
+	for k := range run.Dist {
+		if strings.HasPrefix(k, "seek:matrix:") {
+			cells++
+		}
+	}
+	run.Extra["seek_matrix"] = map[string]any{"cells_covered": cells, "cells": 64,
+		"what": "{Repository.Fetch, blob FetchReference} x the 32 capability profiles (a seeker is returned iff the registry supports ranges; manifest stores never return one)"}
 	enumerateCorruptions()
 	nl := run.Scale(1500, 40000)
 	for i := 0; i < nl; i++ {
